@@ -1221,12 +1221,12 @@ theorem finish_assoc (ws : List Word) (cur : Word) (p : Part) (parts : List Part
     finish ws ((cur ++ [p]) ++ parts) = finish ws (cur ++ p :: parts) := by
   simp
 
-theorem dollar_lex (l : Lang) (hl : dollSglOK l = true) :
+theorem dollar_lex (l lp : Lang) (hl : dollSglOK lp = true) :
     ∀ (ts : List Tok) (offs : Nat) (last : Bool) (body pre out : Bytes) (cur : Word)
       (ws : List Word) (n : Nat),
     (∀ t ∈ ts, TokOK t ∧ t.r ≠ 0) → dollarBody l ts offs last = .ok body → Closed pre out →
     (0 : UInt8) ∉ out → ts.length + 2 ≤ n →
-    ∃ parts, lexF l n (0x24 :: 0x27 :: (pre ++ body ++ [0x27])) cur ws =
+    ∃ parts, lexF lp n (0x24 :: 0x27 :: (pre ++ body ++ [0x27])) cur ws =
         .ok (finish ws (cur ++ parts)) ∧
       parts ≠ [] ∧ (∀ p ∈ parts, ∃ v, p = Part.sgl true v) ∧
       expandParts false parts = .ok (out ++ ts.flatMap Tok.raw) := by
@@ -1238,7 +1238,7 @@ theorem dollar_lex (l : Lang) (hl : dollSglOK l = true) :
     cases hb
     obtain ⟨m, rfl⟩ : ∃ m, n = m + 2 := ⟨n - 2, by simp at hn; omega⟩
     refine ⟨[.sgl true pre], ?_, by simp, ?_, ?_⟩
-    · rw [List.append_nil, lexF_dollar l hl (m + 1) pre out [] cur ws hc, lexF_nil]
+    · rw [List.append_nil, lexF_dollar lp hl (m + 1) pre out [] cur ws hc, lexF_nil]
     · intro p hp; simp at hp; exact ⟨pre, hp⟩
     · have hf := hc.fmt []
       rw [List.append_nil, fmtEsc_nil, List.append_nil] at hf
@@ -1279,7 +1279,7 @@ theorem dollar_lex (l : Lang) (hl : dollSglOK l = true) :
           · have : (0x24 : UInt8) :: 0x27 :: (pre ++ ([0x27, 0x24, 0x27] ++ e ++ rest) ++ [0x27]) =
                 0x24 :: 0x27 :: (pre ++ 0x27 :: (0x24 :: 0x27 :: (e ++ rest ++ [0x27]))) := by
               simp
-            rw [this, lexF_dollar l hl m pre out _ cur ws hc, h1, finish_assoc]
+            rw [this, lexF_dollar lp hl m pre out _ cur ws hc, h1, finish_assoc]
           · intro q hq
             rcases List.mem_cons.mp hq with rfl | hq
             · exact ⟨pre, rfl⟩
@@ -1315,6 +1315,411 @@ theorem dollar_clean (l : Lang) : ∀ (ts : List Tok) (offs : Nat) (last : Bool)
             intro b m; simp only [List.mem_cons, List.not_mem_nil, or_false] at m
             rcases m with rfl | rfl | rfl <;> decide)
           exact Clean.append (Clean.append this hcl) hrest
+
+
+/-! ## Printable runes: the bare, '…' and "…" shapes -/
+
+/-- A decode step that produced a printable rune (so: a valid encoding). -/
+def PTok (t : Tok) : Prop := ValidEnc t.raw t.r ∧ isPrint t.r = true ∧ t.r ≠ runeError
+
+theorem ptok_of {t : Tok} (hok : TokOK t) (hn : nonPrint t.r = false) : PTok t := by
+  simp only [nonPrint, Bool.or_eq_false_iff, beq_eq_false_iff_ne, Bool.not_eq_false'] at hn
+  rcases hok with ⟨h1, _⟩ | ⟨hv, _⟩
+  · exact absurd h1 hn.1
+  · exact ⟨hv, hn.2, hn.1⟩
+
+theorem clean_toks : ∀ ts : List Tok, (∀ t ∈ ts, PTok t) → Clean (ts.flatMap Tok.raw) := by
+  intro ts
+  induction ts with
+  | nil => intro _; exact .nil
+  | cons t ts ih =>
+    intro h
+    obtain ⟨hv, hp, _⟩ := h t (List.mem_cons_self ..)
+    obtain ⟨n0, n1, n2, _⟩ := print_not_ctl hp
+    rw [List.flatMap_cons]
+    exact Clean.cons hv n0 n1 n2 (ih fun t' m => h t' (List.mem_cons_of_mem _ m))
+
+theorem lexWords_clean (l : Lang) {q : Bytes} (h : Clean q) :
+    lexWords l q = lexF l (q.length + 1) q [] [] := by
+  obtain ⟨h1, h2⟩ := h.fragment
+  simp [lexWords, h1, h2]
+
+theorem no_zero_toks {ts : List Tok} (h : ∀ t ∈ ts, PTok t) : (0 : UInt8) ∉ ts.flatMap Tok.raw := by
+  intro m
+  obtain ⟨t, mt, m0⟩ := List.mem_flatMap.mp m
+  obtain ⟨hv, hp, _⟩ := h t mt
+  exact valid_bytes_not hv 0 (by decide) (by have := (print_not_ctl hp).1; simpa using this) m0
+
+/-! ### bare -/
+
+theorem bare_facts : ∀ b : UInt8, isBareByte b = true →
+    b ≠ 0x20 ∧ b ≠ 0x09 ∧ b ≠ 0x27 ∧ b ≠ 0x22 ∧ b ≠ 0x24 := by
+  apply byte_forall; decide +kernel
+
+theorem spanBare_all : ∀ s : Bytes, (∀ b ∈ s, isBareByte b = true) → spanBare s = (s, []) := by
+  intro s
+  induction s with
+  | nil => intro _; rfl
+  | cons c s ih =>
+    intro h
+    have hc := h c (List.mem_cons_self ..)
+    simp only [spanBare, hc, ↓reduceIte, ih fun b m => h b (List.mem_cons_of_mem _ m)]
+
+theorem lexF_bare (l : Lang) (n : Nat) (c : UInt8) (rest : Bytes)
+    (hb : ∀ b ∈ c :: rest, isBareByte b = true) (h23 : c ≠ 0x23) :
+    lexF l (n + 2) (c :: rest) [] [] = .ok [[.lit (c :: rest)]] := by
+  have hc := hb c (List.mem_cons_self ..)
+  obtain ⟨a1, a2, a3, a4, a5⟩ := bare_facts c hc
+  have hsp := spanBare_all rest fun b m => hb b (List.mem_cons_of_mem _ m)
+  simp only [lexF, a1, a2, a3, a4, a5, h23, false_or, false_and, ↓reduceIte, hc, hsp,
+    List.nil_append, finish]
+  simp
+
+theorem ptok_bare {t : Tok} (h : PTok t) (hs : isShellChar t.r = false) :
+    ∀ b ∈ t.raw, isBareByte b = true ∧ b ≠ 0x23 ∧ b ≠ 0x7e := by
+  obtain ⟨hv, hp, _⟩ := h
+  intro b m
+  by_cases hr : t.r < 0x80
+  · obtain ⟨b', hb', hbr⟩ := valid_ascii hv hr
+    rw [hb'] at m; simp at m; subst m
+    obtain ⟨p1, p2⟩ := isPrint_ascii' hr hp
+    have := bare_of_ascii b (by omega) (by omega) (by rw [hbr]; exact hs)
+    exact ⟨this.1, this.2.1, this.2.2.1⟩
+  · have hh := valid_high hv (by omega) b m
+    refine ⟨bare_of_high b hh, ?_, ?_⟩ <;> (intro e; subst e; simp at hh)
+
+/-! ### '…' -/
+
+theorem scanSgl_plain : ∀ (s r : Bytes), (∀ b ∈ s, b ≠ 0x27) →
+    scanSgl (s ++ 0x27 :: r) = some (s, r) := by
+  intro s
+  induction s with
+  | nil => intro r _; simp [scanSgl]
+  | cons c s ih =>
+    intro r h
+    have hc := h c (List.mem_cons_self ..)
+    simp only [List.cons_append, scanSgl, hc, ↓reduceIte, ih r fun b m => h b (List.mem_cons_of_mem _ m)]
+
+theorem lexF_sgl (l : Lang) (n : Nat) (s : Bytes) (h : ∀ b ∈ s, b ≠ 0x27) :
+    lexF l (n + 2) (0x27 :: (s ++ [0x27])) [] [] = .ok [[.sgl false s]] := by
+  have d1 : ¬ ((0x27 : UInt8) = 0x20 ∨ (0x27 : UInt8) = 0x09) := by decide
+  have d2 : ¬ ((0x27 : UInt8) = 0x23) := by decide
+  simp only [lexF, d1, d2, false_and, ↓reduceIte, scanSgl_plain s [] h, List.nil_append, finish]
+  simp
+
+/-! ### "…" -/
+
+theorem scanDq_plain : ∀ (e x v r : Bytes), (∀ c ∈ e, c ≠ 0x22 ∧ c ≠ 0x24 ∧ c ≠ 0x60 ∧ c ≠ 0x5c) →
+    scanDq x = .ok (v, r) → scanDq (e ++ x) = .ok (e ++ v, r) := by
+  intro e
+  induction e with
+  | nil => intro x v r _ h; simpa using h
+  | cons c e ih =>
+    intro x v r h hx
+    obtain ⟨a1, a2, a3, a4⟩ := h c (List.mem_cons_self ..)
+    have := ih x v r (fun c' m => h c' (List.mem_cons_of_mem _ m)) hx
+    rw [List.cons_append, scanDq.eq_def]
+    simp only [a1, a2, a3, a4, or_self, ↓reduceIte, this, List.cons_append]
+
+theorem scanDq_esc (d : UInt8) (x v r : Bytes) (hx : scanDq x = .ok (v, r)) :
+    scanDq (0x5c :: d :: x) = .ok (0x5c :: d :: v, r) := by
+  have d1 : ¬ ((0x5c : UInt8) = 0x22) := by decide
+  have d2 : ¬ ((0x5c : UInt8) = 0x24 ∨ (0x5c : UInt8) = 0x60) := by decide
+  rw [scanDq]
+  simp only [d1, d2, ↓reduceIte, hx]
+
+theorem dqUnescape_plain (c : UInt8) (x : Bytes) (h : c ≠ 0x5c) :
+    dqUnescape (c :: x) = c :: dqUnescape x := by
+  cases x with
+  | nil => rfl
+  | cons d x => simp only [dqUnescape, h, false_and, ↓reduceIte]
+
+theorem dqUnescape_plainList : ∀ (e x : Bytes), (∀ c ∈ e, c ≠ 0x5c) →
+    dqUnescape (e ++ x) = e ++ dqUnescape x := by
+  intro e
+  induction e with
+  | nil => intro x _; rfl
+  | cons c e ih =>
+    intro x h
+    rw [List.cons_append, dqUnescape_plain c _ (h c (List.mem_cons_self ..)),
+      ih x fun c' m => h c' (List.mem_cons_of_mem _ m)]
+    rfl
+
+theorem dqUnescape_esc (d : UInt8) (x : Bytes) (h : d = 0x22 ∨ d = 0x5c ∨ d = 0x24 ∨ d = 0x60) :
+    dqUnescape (0x5c :: d :: x) = d :: dqUnescape x := by
+  simp only [dqUnescape, h, and_self, ↓reduceIte]
+
+/-- What the double-quote loop writes for one printable rune. -/
+theorem dq_piece {t : Tok} (h : PTok t) :
+    (∃ b : UInt8, t.raw = [b] ∧ (b = 0x22 ∨ b = 0x5c ∨ b = 0x24 ∨ b = 0x60) ∧
+      (if t.r = 0x22 ∨ t.r = 0x5c ∨ t.r = 0x60 ∨ t.r = 0x24 then [0x5c] else []) ++ encodeRune t.r
+        = [0x5c, b]) ∨
+    ((∀ c ∈ t.raw, c ≠ 0x22 ∧ c ≠ 0x24 ∧ c ≠ 0x60 ∧ c ≠ 0x5c) ∧
+      (if t.r = 0x22 ∨ t.r = 0x5c ∨ t.r = 0x60 ∨ t.r = 0x24 then [0x5c] else []) ++ encodeRune t.r
+        = t.raw) := by
+  obtain ⟨hv, hp, _⟩ := h
+  have henc := encode_valid hv
+  by_cases hc : t.r = 0x22 ∨ t.r = 0x5c ∨ t.r = 0x60 ∨ t.r = 0x24
+  · left
+    obtain ⟨b, hb, hbr⟩ := valid_ascii hv (by omega)
+    refine ⟨b, hb, ?_, ?_⟩
+    · rcases hc with c | c | c | c
+      · left; apply UInt8.toNat_inj.mp; rw [hbr, c]; rfl
+      · right; left; apply UInt8.toNat_inj.mp; rw [hbr, c]; rfl
+      · right; right; right; apply UInt8.toNat_inj.mp; rw [hbr, c]; rfl
+      · right; right; left; apply UInt8.toNat_inj.mp; rw [hbr, c]; rfl
+    · simp only [hc, ↓reduceIte, henc, hb]; rfl
+  · right
+    refine ⟨?_, by simp only [hc, ↓reduceIte, henc, List.nil_append]⟩
+    intro c m
+    refine ⟨?_, ?_, ?_, ?_⟩ <;> intro e <;> subst e
+    · exact valid_bytes_not hv 0x22 (by decide) (by intro e; exact hc (Or.inl e)) m
+    · exact valid_bytes_not hv 0x24 (by decide) (by intro e; exact hc (Or.inr (Or.inr (Or.inr e)))) m
+    · exact valid_bytes_not hv 0x60 (by decide) (by intro e; exact hc (Or.inr (Or.inr (Or.inl e)))) m
+    · exact valid_bytes_not hv 0x5c (by decide) (by intro e; exact hc (Or.inr (Or.inl e))) m
+
+theorem dq_scan : ∀ (ts : List Tok) (r : Bytes), (∀ t ∈ ts, PTok t) →
+    scanDq (dqBody ts ++ 0x22 :: r) = .ok (dqBody ts, r) := by
+  intro ts
+  induction ts with
+  | nil => intro r _; simp only [dqBody, List.nil_append]; rw [scanDq.eq_def]; simp
+  | cons t ts ih =>
+    intro r h
+    have iht := ih r fun t' m => h t' (List.mem_cons_of_mem _ m)
+    simp only [dqBody]
+    rcases dq_piece (h t (List.mem_cons_self ..)) with ⟨b, _, _, he⟩ | ⟨hpl, he⟩
+    · rw [he]; exact scanDq_esc b _ _ _ iht
+    · rw [he, List.append_assoc]; exact scanDq_plain _ _ _ _ hpl iht
+
+theorem dq_unescape : ∀ (ts : List Tok), (∀ t ∈ ts, PTok t) →
+    dqUnescape (dqBody ts) = ts.flatMap Tok.raw := by
+  intro ts
+  induction ts with
+  | nil => intro _; rfl
+  | cons t ts ih =>
+    intro h
+    have iht := ih fun t' m => h t' (List.mem_cons_of_mem _ m)
+    simp only [dqBody, List.flatMap_cons]
+    rcases dq_piece (h t (List.mem_cons_self ..)) with ⟨b, hb, hsp, he⟩ | ⟨hpl, he⟩
+    · rw [he, hb]
+      show dqUnescape (0x5c :: b :: dqBody ts) = _
+      rw [dqUnescape_esc b _ hsp, iht]; rfl
+    · rw [he, dqUnescape_plainList _ _ (fun c m => (hpl c m).2.2.2), iht]
+
+theorem dq_clean : ∀ (ts : List Tok), (∀ t ∈ ts, PTok t) → Clean (dqBody ts) := by
+  intro ts
+  induction ts with
+  | nil => intro _; exact .nil
+  | cons t ts ih =>
+    intro h
+    have iht := ih fun t' m => h t' (List.mem_cons_of_mem _ m)
+    have ht := h t (List.mem_cons_self ..)
+    obtain ⟨n0, n1, n2, _⟩ := print_not_ctl ht.2.1
+    have hraw : Clean t.raw := clean_valid ht.1 n0 n1 n2
+    simp only [dqBody]
+    rcases dq_piece ht with ⟨b, hb, _, he⟩ | ⟨_, he⟩
+    · rw [he]
+      have : Clean ([0x5c, b] : Bytes) := by
+        have : ([0x5c, b] : Bytes) = [0x5c] ++ t.raw := by rw [hb]; rfl
+        rw [this]
+        exact Clean.append (clean_ascii _ (by intro b' m; simp at m; subst m; decide)) hraw
+      exact Clean.append this iht
+    · rw [he]; exact Clean.append hraw iht
+
+theorem lexF_dq (l : Lang) (n : Nat) (body : Bytes) (h : scanDq (body ++ [0x22]) = .ok (body, [])) :
+    lexF l (n + 2) (0x22 :: (body ++ [0x22])) [] [] = .ok [[.dbl body]] := by
+  have d1 : ¬ ((0x22 : UInt8) = 0x20 ∨ (0x22 : UInt8) = 0x09) := by decide
+  have d2 : ¬ ((0x22 : UInt8) = 0x23) := by decide
+  have d3 : ¬ ((0x22 : UInt8) = 0x27) := by decide
+  simp only [lexF, d1, d2, d3, false_and, ↓reduceIte, h, List.nil_append, finish]
+  simp
+
+
+/-! ## Assembly: the round trip -/
+
+theorem dollSglOK_of {l : Lang} (hv : validLang l = true) (hp : langIn l langPOSIX = false) :
+    dollSglOK (resolve l) = true := by
+  simp only [validLang, Bool.or_eq_true, beq_iff_eq] at hv
+  rcases hv with ((((rfl | rfl) | rfl) | rfl) | rfl) | rfl
+  · revert hp; decide
+  · decide
+  · revert hp; decide
+  · decide
+  · decide
+  · decide
+
+theorem encodeRune_len (r : Nat) : 1 ≤ (encodeRune r).length := by
+  unfold encodeRune
+  repeat' split
+  all_goals simp
+
+theorem piece_len {l : Lang} {last : Bool} {t : Tok} {p : Bytes} {nxt : Bool}
+    (hp : piece l last t = .ok (p, nxt)) : 1 ≤ p.length := by
+  have hs := piece_spec l last t
+  rw [hp] at hs
+  generalize hres : (Except.ok (p, nxt) : Except ErrKind (Bytes × Bool)) = res at hs
+  have := encodeRune_len t.r
+  cases hs <;> cases hres <;> simp <;> omega
+
+theorem dollar_len (l : Lang) : ∀ (ts : List Tok) (offs : Nat) (last : Bool) (body : Bytes),
+    dollarBody l ts offs last = .ok body → ts.length ≤ body.length := by
+  intro ts
+  induction ts with
+  | nil => intro offs last body _; simp
+  | cons t ts ih =>
+    intro offs last body hb
+    simp only [dollarBody] at hb
+    cases hp : piece l last t with
+    | error k => rw [hp] at hb; simp only at hb; cases hb
+    | ok r =>
+      obtain ⟨p, nxt⟩ := r
+      rw [hp] at hb; simp only at hb
+      cases hd : dollarBody l ts (offs + t.size) nxt with
+      | error e' => rw [hd] at hb; simp only at hb; cases hb
+      | ok rest =>
+        rw [hd] at hb; simp only at hb; cases hb
+        have := piece_len hp
+        have := ih _ _ _ hd
+        simp only [List.length_cons, List.length_append]; omega
+
+theorem expandParts_sgl_first : ∀ (parts : List Part), (∀ p ∈ parts, ∃ v, p = Part.sgl true v) →
+    expandParts true parts = expandParts false parts := by
+  intro parts h
+  cases parts with
+  | nil => rfl
+  | cons p ps =>
+    obtain ⟨v, rfl⟩ := h p (List.mem_cons_self ..)
+    simp only [expandParts, expandPart]
+
+theorem any_false_all {α : Type} {p : α → Bool} {l : List α} (h : l.any p = false) :
+    ∀ x ∈ l, p x = false := by
+  intro x m
+  cases hx : p x
+  · rfl
+  · have : l.any p = true := List.any_eq_true.mpr ⟨x, m, hx⟩
+    rw [h] at this; cases this
+
+/-- The four word shapes: one literal, one '…', one "…", or one or more $'…' parts. -/
+def WordShape (w : Word) : Prop :=
+  (∃ v, w = [.lit v]) ∨ (∃ v, w = [.sgl false v]) ∨ (∃ v, w = [.dbl v]) ∨
+  (w ≠ [] ∧ ∀ p ∈ w, ∃ v, p = Part.sgl true v)
+
+/-- Whenever Quote succeeds, its result is read back by the parser as exactly one word of one of
+    the four shapes, and `expand.Literal` of that word is the original string. -/
+theorem quote_roundtrip_main (l : Lang) (s q : Bytes) (hv : validLang l = true)
+    (h : quote l s = .ok q) :
+    ∃ w, lexWords (resolve l) q = .ok [w] ∧ WordShape w ∧ expandLit w = .ok s := by
+  have hok := runes_ok s
+  have hj := runes_join s
+  have hq27 : Clean ([0x27] : Bytes) := clean_ascii _ (by intro b m; simp at m; subst m; decide)
+  by_cases hs : s = []
+  · subst hs
+    simp only [quote, ↓reduceIte] at h
+    cases h
+    refine ⟨[.sgl false []], ?_, Or.inr (Or.inl ⟨_, rfl⟩), rfl⟩
+    have hc : Clean ([0x27, 0x27] : Bytes) := Clean.append hq27 hq27
+    rw [lexWords_clean _ hc]
+    exact lexF_sgl _ 1 [] (by simp)
+  unfold quote at h
+  simp only [hs, ↓reduceIte] at h
+  cases hsc : scan l (runes s) 0 false false with
+  | error e => rw [hsc] at h; cases h
+  | ok r =>
+    obtain ⟨sc, np⟩ := r
+    rw [hsc] at h; simp only at h
+    obtain ⟨i1, i2, i3⟩ := scan_ok l _ _ _ _ _ _ hsc
+    simp only [Bool.false_or] at i2 i3
+    by_cases hb : (!sc && !np && !isKeyword s) = true
+    · -- bare
+      simp only [hb, ↓reduceIte] at h; cases h
+      simp only [Bool.and_eq_true, Bool.not_eq_true'] at hb
+      obtain ⟨⟨hsc0, hnp0⟩, _⟩ := hb
+      have hpt : ∀ t ∈ runes s, PTok t := fun t m =>
+        ptok_of (hok t m) (any_false_all (by rw [← i3]; exact hnp0) t m)
+      have hbare : ∀ b ∈ s, isBareByte b = true ∧ b ≠ 0x23 ∧ b ≠ 0x7e := by
+        intro b m
+        rw [← hj] at m
+        obtain ⟨t, mt, mb⟩ := List.mem_flatMap.mp m
+        exact ptok_bare (hpt t mt) (any_false_all (by rw [← i2]; exact hsc0) t mt) b mb
+      have hcl : Clean s := by rw [← hj]; exact clean_toks _ hpt
+      have hz : (0 : UInt8) ∉ s := by rw [← hj]; exact no_zero_toks hpt
+      cases s with
+      | nil => exact absurd rfl hs
+      | cons c rest =>
+        obtain ⟨_, c23, c7e⟩ := hbare c (List.mem_cons_self ..)
+        refine ⟨[.lit (c :: rest)], ?_, Or.inl ⟨_, rfl⟩, ?_⟩
+        · rw [lexWords_clean _ hcl]
+          have : (c :: rest).length + 1 = rest.length + 2 := by simp
+          rw [this]
+          exact lexF_bare _ _ c rest (fun b m => (hbare b m).1) c23
+        · simp only [expandLit, expandParts, expandPart, List.head?_cons, Option.some.injEq, c7e,
+            and_false, ↓reduceIte, cutNul_id _ hz, List.append_nil]
+    · simp only [hb, Bool.false_eq_true, ↓reduceIte] at h
+      cases hnp : np with
+      | true =>
+        -- $'…'
+        rw [hnp] at h i3
+        simp only [↓reduceIte] at h
+        cases hd : dollarBody l (runes s) 0 false with
+        | error e => rw [hd] at h; cases h
+        | ok body =>
+          rw [hd] at h; simp only at h; cases h
+          obtain ⟨t0, m0, hn0⟩ := List.any_eq_true.mp i3.symm
+          have hposix : langIn l langPOSIX = false := by
+            cases hp : langIn l langPOSIX
+            · rfl
+            · have := (i1 t0 m0).2 hp; rw [this] at hn0; cases hn0
+          have hl := dollSglOK_of hv hposix
+          have hbody := dollar_clean l _ _ _ body hok hd
+          have hd24 : Clean ([0x24, 0x27] : Bytes) :=
+            clean_ascii _ (by intro b m; simp at m; rcases m with rfl | rfl <;> decide)
+          have hcl : Clean ([0x24, 0x27] ++ body ++ [0x27]) :=
+            Clean.append (Clean.append hd24 hbody) hq27
+          have hlen := dollar_len l _ _ _ body hd
+          obtain ⟨parts, h1, h2, h3, h4⟩ :=
+            dollar_lex l (resolve l) hl (runes s) 0 false body [] [] [] []
+              (([0x24, 0x27] ++ body ++ [0x27]).length + 1)
+              (fun t m => ⟨hok t m, (i1 t m).1⟩) hd Closed.nil (by simp) (by simp; omega)
+          refine ⟨parts, ?_, Or.inr (Or.inr (Or.inr ⟨h2, h3⟩)), ?_⟩
+          · rw [lexWords_clean _ hcl]
+            simp only [List.nil_append, List.cons_append, finish, h2, ↓reduceIte] at h1 ⊢
+            exact h1
+          · rw [expandLit, expandParts_sgl_first parts h3, h4, hj]; rfl
+      | false =>
+        rw [hnp] at h i3
+        simp only [Bool.false_eq_true, ↓reduceIte] at h
+        have hpt : ∀ t ∈ runes s, PTok t := fun t m =>
+          ptok_of (hok t m) (any_false_all i3.symm t m)
+        have hcl : Clean s := by rw [← hj]; exact clean_toks _ hpt
+        have hz : (0 : UInt8) ∉ s := by rw [← hj]; exact no_zero_toks hpt
+        by_cases hq : (!s.contains 0x27) = true
+        · -- '…'
+          simp only [hq, ↓reduceIte] at h; cases h
+          have hno : ∀ b ∈ s, b ≠ 0x27 := by
+            intro b m e; subst e
+            simp only [Bool.not_eq_true', List.contains_eq_mem, decide_eq_false_iff_not] at hq
+            exact hq m
+          refine ⟨[.sgl false s], ?_, Or.inr (Or.inl ⟨_, rfl⟩), ?_⟩
+          · rw [lexWords_clean _ (Clean.append (Clean.append hq27 hcl) hq27)]
+            have : ([0x27] ++ s ++ [0x27] : Bytes).length + 1 = (s.length + 1) + 2 := by simp
+            rw [this]
+            exact lexF_sgl _ _ s hno
+          · simp only [expandLit, expandParts, expandPart, List.append_nil]
+        · -- "…"
+          simp only [hq, Bool.false_eq_true, ↓reduceIte] at h; cases h
+          have hq22 : Clean ([0x22] : Bytes) :=
+            clean_ascii _ (by intro b m; simp at m; subst m; decide)
+          refine ⟨[.dbl (dqBody (runes s))], ?_, Or.inr (Or.inr (Or.inl ⟨_, rfl⟩)), ?_⟩
+          · rw [lexWords_clean _ (Clean.append (Clean.append hq22 (dq_clean _ hpt)) hq22)]
+            have : ([0x22] ++ dqBody (runes s) ++ [0x22] : Bytes).length + 1 =
+                ((dqBody (runes s)).length + 1) + 2 := by simp
+            rw [this]
+            exact lexF_dq _ _ _ (dq_scan _ [] hpt)
+          · have hz' : (0 : UInt8) ∉ dqUnescape (dqBody (runes s)) := by
+              rw [dq_unescape _ hpt, hj]; exact hz
+            rw [dq_unescape _ hpt, hj] at hz'
+            simp only [expandLit, expandParts, expandPart, dq_unescape _ hpt, hj, cutNul_id _ hz',
+              List.append_nil]
 
 
 end ShVerif.C13
